@@ -684,10 +684,16 @@ RunResult sim_run(const Plan &plan) {
                 OpState st; ExecOp dummy; st.op = &dummy; st.opi = ob.opi; st.obs = &ob; t_op = &st;
                 ob.before = take_snapshot(); ob.ev_begin = (int)G.hist.size();
                 static const char *names[] = {"error_logging", "filter_chain", "message_format", "output", "syslog_facility", "syslog_ident", "syslog_level", "datasource_message_max_length", "log_message_max_length"};
-                r.cli_conf = J::obj();
-                t_in_sut = 1; p_cli_init(); t_in_sut = 0;
-                for (const char *n : names) { t_in_sut = 1; char *v = p_optval(n); t_in_sut = 0; if (v) { r.cli_conf.set(n, std::string(v)); t_in_sut = 1; free(v); t_in_sut = 0; } else r.cli_conf.set(n, J()); }
-                t_in_sut = 1; p_cli_exit(); t_in_sut = 0;
+                for (int pass = 0; pass < (op.roundtrip ? 2 : 1); pass++) {
+                    J rep = J::obj();
+                    t_in_sut = 1; p_cli_init(); t_in_sut = 0;
+                    for (const char *n : names) { t_in_sut = 1; char *v = p_optval(n); t_in_sut = 0; if (v) { rep.set(n, std::string(v)); t_in_sut = 1; free(v); t_in_sut = 0; } else rep.set(n, J()); }
+                    t_in_sut = 1; p_cli_exit(); t_in_sut = 0;
+                    if (pass == 0) {
+                        r.cli_conf = rep;
+                        if (op.roundtrip) { std::string f = "[snoopy]\n"; for (auto &kv : rep.o) if (kv.second.t == J::STR) f += kv.first + " = " + kv.second.s + "\n"; FileNode fn; fn.content = f; G.w.files[SIM_CONFIG_PATH] = fn; }
+                    } else r.cli_conf2 = rep;
+                }
                 t_op = nullptr; ob.ev_end = (int)G.hist.size(); ob.after = take_snapshot(); ob.returned = true;
                 environ = saved; free_vec(e, store);
             } else if (op.op == "Batch") {
